@@ -30,8 +30,8 @@ MCCfgMedium == [maze |-> "mc7", rows |-> 7, cols |-> 7,
                             <<1,0,1,0,1,0,1>>,
                             <<1,0,0,0,0,0,1>>,
                             <<1,1,1,0,1,1,1>> >>,
-               player_start |-> <<5, 3>>, ghost_spawns |-> << <<1, 3>>, <<3, 3>> >>, power_ups |-> << <<1, 1>>, <<5, 5>> >>,
-               time_limit |-> 1000, time_limit_given |-> FALSE, scatter_time |-> 2]
+               player_start |-> <<5, 3>>, ghost_spawns |-> << <<1, 3>>, <<3, 3>> >>, power_ups |-> << <<5, 5>> >>,
+               time_limit |-> 1000, time_limit_given |-> FALSE, scatter_time |-> 1]
 
 MovNone == {}
 MovFirst == {1}
@@ -42,7 +42,7 @@ LimLong == {1000}
 LimTwo == {2}
 PelAll == <<>>
 PelSmall5 == << <<3, 2>>, <<3, 1>>, <<2, 1>>, <<2, 0>>, <<1, 3>> >>
-PelMedium7 == << <<5, 3>>, <<5, 2>>, <<3, 0>>, <<3, 6>>, <<0, 3>>, <<1, 3>> >>
+PelMedium7 == << <<5, 3>>, <<3, 0>>, <<0, 3>> >>
 
 InitPellets == IF PelletInit = <<>> THEN FreeCells ELSE { CellOf(PelletInit[j]) : j \in 1..Len(PelletInit) }
 InitPowers == { CellOf(Cfg.power_ups[j]) : j \in 1..Len(Cfg.power_ups) }
